@@ -199,6 +199,19 @@ CHECKS = {
         note='The shipped script is executed by the real interpreter, so the check also exercises while/continue/break lowering on a '
              'real program.',
         ref='DESIGN.md 5 C20'),
+    'C16': dict(
+        technique='TLA+ proleptic-Gregorian calendar and zone arithmetic (BareDatetime: Normalize, CivilFromDays, ValidOffsets) + TLC '
+                  'model checking of its self-consistency (MC_Datetime) + TLC judgement of real datetime results recorded in one '
+                  'subprocess per time zone (Trace_Datetime)',
+        text='TLC checks that the code-shaped month-by-month roll-over equals Normalize on a boundary grid, that CivilFromDays inverts '
+             'DaysFromCivil, and that zone conversion round-trips around a gap, a fold and a 30-minute rule. For each of 8 time zones '
+             'a subprocess (TZ set, tzset) records datetimeNew over boundary and random components with all seven getters (int and '
+             'float spellings), d + n - d for |n| <= 1e12 ms, datetimeISOFormat / datetimeISOParse at +-3 h around every transition '
+             '1921-2099 and at random instants, and datetimeISOParse on valid and invalid ISO texts; TLC judges every record against '
+             'Normalize, AddMs, the ISO layout at an offset valid for the local time in the extracted zone table, and the ISO grammar.',
+        note='The tz database and zoneinfo supply the transition tables (trusted); offsets with seconds (pre-standard-time LMT) are '
+             'outside the property; local times in a gap are not judged; one trailing line feed after an ISO text is an allowed set.',
+        ref='DESIGN.md 5 C16'),
 }
 
 NOT_YET = 'check not built yet in this round (work in progress; see DESIGN.md section 9 build order)'
